@@ -6,6 +6,7 @@ import (
 	"fmt"
 	"io"
 	"math"
+	"math/big"
 	"math/rand/v2"
 	"reflect"
 	"regexp"
@@ -15,6 +16,7 @@ import (
 	"strings"
 	"sync"
 	"sync/atomic"
+	"time"
 
 	jsonv2 "github.com/go-json-experiment/json"
 	"github.com/go-json-experiment/json/jsontext"
@@ -551,14 +553,23 @@ func c04Exec(c *arshalCase) {
 	}()
 	r := rand.New(rand.NewPCG(c.Seed[0], c.Seed[1]))
 	td, omit := c04Type(r)
+	if c.Seed[0]%16 == 0 { // instants where the count of milli/micro/nanoseconds passes a boundary
+		td, omit = unixSweepType, false
+	}
 	t := buildType(td)
 	c.Type = truncate(t.String(), 300)
-	hasFormat := strings.Contains(t.String(), "format:")
+	hasFormat := lossyFormat.MatchString(t.String())
 	// unnamed numeric zones do not survive time layouts that print a zone abbreviation (a property
 	// of package time), so they are used with the default RFC 3339 representation only
 	// layouts with a two-digit year cannot tell centuries apart (package time again)
 	twoDigitYear := strings.Contains(t.String(), "format:RFC822") || strings.Contains(t.String(), "format:RFC850")
 	v := genGoValue(r, &valCfg{nils: true, numericZones: !hasFormat, nearYears: twoDigitYear}, t, 0)
+	if td == unixSweepType {
+		tm := unixBoundaryTime(r)
+		for i := 0; i < v.NumField(); i++ {
+			v.Field(i).Set(reflect.ValueOf(tm))
+		}
+	}
 	opts := append(c.Opts.options(r), jsonv2.ExperimentalSupportFormatTag(true))
 	c.Omit = omit || c.Opts.Name == "omitzero" || c.Opts.Name == "legacy-omitempty" || c.Opts.Name == "v1"
 	out1, err1 := jsonv2.Marshal(v.Interface(), opts...)
@@ -587,6 +598,53 @@ func c04Exec(c *arshalCase) {
 	// [decoded == original, equality is meaningful for this type and option set]
 	meaningful := !c.Omit && !descHas(td, "any", "raw") && c.Opts.Name != "nilasnull" && !hasFormat
 	c.Flags = []bool{equalNorm(v, p2.Elem()), meaningful}
+}
+
+// formats that do not keep everything of the Go value (sub-seconds, centuries, zone offsets):
+// Go equality after a round trip is not meaningful with them.  The unix*, *Nano, duration and
+// binary formats are lossless.
+var lossyFormat = regexp.MustCompile("format:(RFC3339[^N]|RFC822|RFC850|RFC1123|UnixDate|ANSIC|Kitchen|Stamp|DateTime|DateOnly|TimeOnly|'|nonfinite|emitnull|emitempty)")
+
+var unixSweepType = &tdesc{K: "struct", Fields: []fdesc{
+	{Go: "Sec", T: &tdesc{K: "time"}, Tag: `json:",format:unix"`},
+	{Go: "Milli", T: &tdesc{K: "time"}, Tag: `json:",format:unixmilli"`},
+	{Go: "Micro", T: &tdesc{K: "time"}, Tag: `json:",format:unixmicro"`},
+	{Go: "Nano", T: &tdesc{K: "time"}, Tag: `json:",format:unixnano"`},
+}}
+
+// unixBoundaryTime: an instant whose count of units since the epoch (unit: second, milli-,
+// micro- or nanosecond) is within a few units of 2^63, 2^64, 10^9 * units-per-second or 0, on
+// either side of the epoch, with arbitrary digits below the unit
+func unixBoundaryTime(r *rand.Rand) time.Time {
+	unit := []int64{1, 1e3, 1e6, 1e9}[r.IntN(4)] // units per second
+	pow := new(big.Int)
+	switch r.IntN(5) {
+	case 0:
+		pow.Lsh(big.NewInt(1), 63)
+	case 1, 2:
+		pow.Lsh(big.NewInt(1), 64)
+	case 3:
+		pow.Mul(big.NewInt(1e9), big.NewInt(unit))
+	default:
+		pow.SetInt64(0)
+	}
+	pow.Add(pow, big.NewInt(int64(r.IntN(7)-3)))
+	if r.IntN(4) == 0 { // anywhere inside the second that holds the boundary
+		pow.Add(pow, big.NewInt(r.Int64N(unit)-unit/2))
+	}
+	if pow.Sign() < 0 {
+		pow.Neg(pow)
+	}
+	sec, rem := new(big.Int).QuoRem(pow, big.NewInt(unit), new(big.Int))
+	nsec := rem.Int64()*(1e9/unit) + r.Int64N(1e9/unit)
+	s := sec.Int64()
+	if !sec.IsInt64() || s > math.MaxInt64/4 { // time.Time counts seconds from the year 1 in an int64
+		s = math.MaxInt64 / 4
+	}
+	if r.IntN(2) == 0 {
+		s, nsec = -s, -nsec
+	}
+	return time.Unix(s, nsec).UTC()
 }
 
 // ------------------------------------------------------------------ C03: untyped targets
